@@ -144,6 +144,13 @@ theorem concreteCmds_ownKey (rw fl : Bool) : ∀ e c, c ∈ concreteCmds rw fl e
     · split at hc
       · simp at hc; rw [hc]
       · simp at hc
+  · simp only [List.mem_append, List.mem_map] at hc
+    rcases hc with (hc | ⟨f, -, rfl⟩) | hc
+    · simp at hc; rw [hc]
+    · rfl
+    · split at hc
+      · simp at hc; rw [hc]
+      · simp at hc
   · simp only [List.mem_map] at hc
     obtain ⟨f, -, rfl⟩ := hc
     rfl
